@@ -13,6 +13,15 @@ PROPS = {
     },
 }
 
+PROPS["C03"] = {
+    "modules": ["harness.c03"], "level": "model_checking", "design_ref": "DESIGN.md 2/C03",
+    "level_text": "Each codec class has a CrossHair harness whose inputs are all of its fields (unbounded ints, floats, short strings, "
+                  "presence bits); round trip, canonical re-encoding, forward compatibility, update() purity and finalize() are postconditions "
+                  "decided by z3 over all field values within the string/list length bounds.",
+    "level_note": XH_NOTE + " Validated label formats, tags and ISO dates come from concrete pools selected by symbolic index.",
+    "explanation": "attribute value codecs round trip", "assumptions": [],
+}
+
 NOT_APPLICABLE = {
     "C01": "every value on the GraphML/JSON text path crosses expat/lxml/json C code and temp files, where a symbolic value is "
            "concretised; what remains would be concrete sampling, i.e. a different technique (store-level half is decided under C04/C20)",
